@@ -23,7 +23,7 @@ OPTIONS = {
 }
 PARAM = {SinglePositioningDFXPWriter: "captions_set"}
 MODULES = ["pycaption.base", "pycaption.srt", "pycaption.webvtt", "pycaption.microdvd", "pycaption.sami",
-           "pycaption.dfxp.base", "pycaption.dfxp.extras", "pycaption.scc", "pycaption.geometry"]
+           "pycaption.dfxp.base", "pycaption.dfxp.extras", "pycaption.scc", "pycaption.geometry", "pycaption.scc.constants", "pycaption.utils", "pycaption.exceptions"]
 
 
 def frame_obligations(g):
